@@ -264,6 +264,19 @@ theorem C14_ctor_excluded :
   refine ⟨fun u hu => ⟨_, rfl, fun h => hu ((U64.toI64_val u).mp h)⟩,
     fun i hi => ⟨_, rfl, fun h => hi ((I64.toU64_val i).mp h)⟩, by decide, by decide, rfl, rfl, rfl, fun _ => rfl⟩
 
+/-- **The literal `nil` ↦ unset.**  Every one of the eight constructors maps the untyped nil
+interface value (`Int64(nil)`, `Bool(nil)`, …) to unset: no `case` of its type switch matches a
+nil interface, so the `default` arm returns nil.  (Nil POINTERS of each accepted pointer type are
+covered by `C14_ctor`.) -/
+theorem C14_ctor_nil :
+    (∀ α : Type, optOf (Arg.nil : Arg α) = none) ∧
+    optString .nil = none ∧ optInt .nil = none ∧ optInt32 .nil = none ∧ optUInt32 .nil = none ∧
+    optBool .nil = none ∧ optInt64 .nil = none ∧ optUInt64 .nil = none ∧ optFileMode .nil = none :=
+  ⟨fun _ => rfl, rfl, rfl, rfl, rfl, rfl, rfl, rfl, rfl⟩
+
+example : optInt64 .nil = none ∧ optInt64 (.int64 (I64.ofInt 0)) = some (I64.ofInt 0) ∧
+    optBool .nil = none ∧ optBool (.val false) = some false := by decide
+
 /-! ## Mounts, devices, hooks -/
 
 /-- **Mounts.**  OCI → NRI → OCI returns every mount with its destination, type, source and
